@@ -62,6 +62,15 @@ def run(prop, replay=None):
         cov = extract_cases(rs.stdout)
         v.add_tlc(rs, "GEN transition coverage: %d histories, one per transition of the sequential state graph" % len(cov))
         cases = cov + cases
+    if prop == "C33":
+        rh = tlc_cfg("_hcov.cfg", base % (0, 0) + "INIT GInit\nNEXT GHealthNext\nVIEW StateView\nINVARIANT EmitAll\nCHECK_DEADLOCK FALSE\n", "CoordGen", "hcov_" + prop, workers=4, timeout=1800)
+        if rh.error or rh.violated:
+            raise vlib.ToolError("GEN health coverage: %s %s" % (rh.error, rh.violated))
+        hc = extract_cases(rh.stdout)
+        for c in hc:
+            c["cap"] = 2          # worker capacity for these histories: a heartbeat reporting 2 running pipelines saturates the worker
+        v.add_tlc(rh, "GEN health transition coverage: %d histories (one per transition of the health state graph), run with worker capacity 2" % len(hc))
+        cases = hc + cases
     cpath, rpath, tpath = os.path.join(w, "cases.ndjson"), os.path.join(w, "report.json"), os.path.join(w, "trace.ndjson")
     write_ndjson(cpath, cases)
     run_harness("vh", ["coord-replay", cpath, rpath, tpath])
